@@ -394,6 +394,28 @@ def rand_c02(seed, tier, cases=None):
             cl = "rand_bitflip"
         prev = list(rng.choice(base)) if base and rng.random() < 0.8 else [rng.randint(0, 255) for _ in range(rng.randint(0, 40))]
         out.append(dict(fam="C02", kind="bytes", bytes=b, prev=prev, **{"class": cl}))
+    # longer receiver histories: accepted and REJECTED inputs before the judged one (a rejected decode may leave
+    # the receiver half-written): whole images, images cut inside the CSRC list / extension block / anywhere, X bit toggled
+    for k in range(1500 if tier == "quick" else 30000):
+        if not base:
+            break
+        def damaged():
+            h = list(rng.choice(base))
+            m = rng.random()
+            if m < 0.3 and len(h) >= 12:
+                cc = h[0] & 15
+                h = h[:rng.randint(12, 12 + 4 * cc)] if cc else h[:rng.randint(12, len(h))]
+            elif m < 0.6:
+                h = h[:rng.randint(0, len(h))]
+            if h and rng.random() < 0.4:
+                h[0] ^= 0x10
+            if h and rng.random() < 0.2:
+                h[0] = (h[0] & 0xF0) | rng.choice([1, 2, 15])
+            return h
+        hist = [list(rng.choice(base)) if rng.random() < 0.5 else damaged() for _ in range(rng.randint(1, 3))]
+        prev = damaged() if rng.random() < 0.6 else list(rng.choice(base))
+        b = list(rng.choice(base)) if rng.random() < 0.8 else damaged()
+        out.append(dict(fam="C02", kind="bytes", bytes=b, prev=prev, hist=hist, **{"class": "rand_history"}))
     return out
 
 
@@ -415,10 +437,11 @@ prop(dict(
     workers=16,
     class_of=_cls_prefix,
     nontrivial=lambda c: len(c["bytes"]) >= 12,
-    mandatory=["trunc_onebyte", "trunc_noext", "mut_byte0", "mut_exthdr", "mut_extbody", "mut_last", "pair_onebyte", "rand_bytes", "rand_bitflip"],
+    mandatory=["trunc_onebyte", "trunc_noext", "mut_byte0", "mut_exthdr", "mut_extbody", "mut_last", "pair_onebyte", "rand_bytes", "rand_bitflip", "rand_history"],
     rule="TLC derives from RFC-grammar images (RtpWire!Image): every truncation, single-position mutations at structural positions "
          "(byte 0/1, extension header and first 12 body bytes, last byte) over a boundary alphabet, and (earlier, later) pairs; every case is decoded "
-         "into a fresh and into a used Packet and Header; seeded random strings and bit-flips are added; non-trivial = at least 12 bytes; distinct = distinct (bytes, prev)",
+         "into a fresh and into a used Packet and Header; seeded random strings, bit-flips and receiver histories of up to four earlier inputs (whole, cut inside the CSRC list or the "
+         "extension block, X bit toggled: accepted and rejected ones) are added; non-trivial = at least 12 bytes; distinct = distinct (bytes, prev)",
     assumptions=RTP_ASSUME + ["accept/reject of malformed input is not judged (the statement does not fix it)"],
 ))
 
